@@ -130,8 +130,29 @@ impl Callbacks for Cb {
             let traits = tables::traits(tcx);
             let fns: Vec<J> =
                 self.order.iter().map(|p| J::Obj(self.fns.remove(p).unwrap())).collect();
+            // the source files this compilation actually read, with the hash rustc computed of each: the consumer
+            // compares them with the files on disk, so facts can never silently describe another tree state
+            let mut srcs: Vec<J> = Vec::new();
+            for sf in tcx.sess.source_map().files().iter() {
+                if sf.cnum != rustc_span::def_id::LOCAL_CRATE {
+                    continue;
+                }
+                if let rustc_span::FileName::Real(real) = &sf.name {
+                    if let Some(pth) = real.local_path() {
+                        let hex: String = sf.src_hash.hash_bytes().iter().map(|b| format!("{:02x}", b)).collect();
+                        srcs.push(obj! {
+                            "path": J::s(pth.to_string_lossy().to_string()),
+                            "kind": J::s(format!("{:?}", sf.src_hash.kind)),
+                            "hash": J::s(hex)
+                        });
+                    }
+                }
+            }
+            let cwd = std::env::current_dir().map(|p| p.to_string_lossy().to_string()).unwrap_or_default();
             let doc = obj! {
                 "crate": J::s(&krate),
+                "cwd": J::s(cwd),
+                "sources": J::Arr(srcs),
                 "cfg": J::s(std::env::var("SCALEFACTS_CFG").unwrap_or_default()),
                 "impls": J::Arr(impls),
                 "adts": J::Arr(adts),
